@@ -14,6 +14,8 @@ func extraCommand(name string, args []string) bool {
 		cmdMigrate(args)
 	case "client":
 		cmdClient(args)
+	case "watch":
+		cmdWatch(args)
 	default:
 		return false
 	}
